@@ -235,10 +235,11 @@ PROPS['C10'] = dict(
 PROPS['C05'] = dict(
     category='other',
     technique='Kani contracts on the framing kernels (header recognition, skip rule, version line) over symbolic ASCII lines / listed templates; driver harnesses with a recording DecodeBeatmap impl (thorough tier)',
-    level_text='bounded stand-ins: Section::try_from_line accepts exactly `[Name]` for the 11 names over every ASCII line up to 15 bytes; should_skip_line is true exactly for empty lines and lines whose first non-blank text is `//` (every line up to 5 bytes over a 5-letter alphabet); version-line handling on 8 templates; line reading per C10. The driver (which line reaches which parser) is checked on listed files only in the thorough tier',
+    level_text='bounded stand-ins: Section::try_from_line accepts exactly `[Name]` for the 11 names over every ASCII line up to 15 bytes; should_skip_line is true exactly for empty lines and lines whose first non-blank text is `//` (every line up to 5 bytes over a 5-letter alphabet); version-line handling on 8 templates; Decoder::curr_line removes trailing whitespace only (every 3-byte ASCII line); line reading per C10. The driver (which line reaches which parser) is checked on listed files only in the thorough tier',
     level_note='driver-level equivalence for arbitrary files is not decided in the quick tier; non-UTF-8 encodings are C10',
-    verus=[], kani=['support.kc', 'c05.kc'],
-    kani_functions=['src/section/mod.rs :: impl Section :: fn try_from_line', 'src/decode.rs :: trait DecodeBeatmap :: fn should_skip_line', 'src/format_version.rs :: fn try_version_from_line',
+    verus=[], kani=['support.kc', 'c05.kc', 'decoder.kc'],
+    only_prefix=['c05_'],
+    kani_functions=['src/section/mod.rs :: impl Section :: fn try_from_line', 'src/decode.rs :: trait DecodeBeatmap :: fn should_skip_line', 'src/format_version.rs :: fn try_version_from_line', 'src/reader/decoder.rs :: impl Decoder :: fn curr_line',
                     'src/decode.rs :: trait DecodeBeatmap :: fn decode / fn parse_version / fn parse_first_section / fn parse_section (thorough tier)'],
     explanation='see level_text', trusted_base=COMMON_TRUST + ['naive_memchr / naive_memrchr stand-ins for core::slice::memchr'], assumptions=[],
     not_decided=['files beyond the listed ones', 'lines longer than the bounds'],
@@ -261,15 +262,19 @@ PROPS['C01'] = dict(
 
 PROPS['C04'] = dict(
     category='other',
-    technique='Verus contract on the extracted add_path_data control-point loop with the writer replaced by an emission log (rule R7): loop invariant over the number of `,` separators, unbounded in the number of control points',
-    level_text='proved (Verus, every control-point list of every length with a typed first point, every position): the slider path part written by the encoder contains exactly one `,` separator and it is the last path token, i.e. it matches the decoder grammar `type (| point)* ,` -- so a typed last control point can no longer produce `|L,x:y` which the decoder rejects. Only this part of C04 is claimed',
-    level_note='the rendered text (core::fmt) is dropped by R7: only the ORDER of emissions and the separator byte chosen by the code are kept; the tail of add_path_data (length, node sounds / banks) is cut from the unit (line count in evidence); section order, headers and acceptance of every other line kind need the rendered text and are not decided',
-    verus=[dict(unit='c04', tier='quick')], kani=[],
+    technique='Verus contracts on the extracted encoder functions with the writer replaced by a typed emission protocol (rule R10: every write!/writeln!/write_all becomes the sequence of typed emissions it performs; the line grammar and the key/value acceptance table are preconditions of the emission functions) and, for the slider path, by an emission log (rule R7) with a loop invariant over the `,` separators',
+    level_text='proved (Verus, every map value): Beatmap::encode writes the format-version line first and then the eight section headers, once each, in canonical order, with the header texts Section::try_from_line recognises; every line written by encode_general / encode_editor / encode_metadata / encode_difficulty has the shape `Key: value` (bookmarks: `Key: v,v,..`) with a key of that section and a value whose rendered class (integer / 0..3 discriminant / float / text) the parser arm of that key accepts. proved (Verus, control-point lists of every length): the slider path part contains exactly one `,` separator and it is the last path token (decoder grammar `type (| point)* ,`)',
+    level_note='rendered text (core::fmt) is abstracted to the class of the argument type; the acceptance table `accepts` is transcribed from the match arms of the four parse_* functions (parser side pinned per key by the c11_* Kani harnesses); the record lines of [Events] / [TimingPoints] / [Colours] / [HitObjects] other than the slider path are CUT from the units (line counts in evidence): their acceptance is not decided',
+    verus=[dict(unit='c04', tier='quick'), dict(unit='kv', tier='quick')], kani=[],
     kani_functions=[],
     explanation='see level_text',
-    trusted_base=COMMON_TRUST + ['R7: writer -> emission log; write!/write_all -> emit(token)', 'R6: position arithmetic / int-cast comparison / Option<PathType> inequality abstracted as uninterpreted functions'],
-    assumptions=['first control point is typed and the list is non-empty (established by the decoder: obligation ho_path_*)'],
-    not_decided=['every line kind other than the slider path', 'section order and headers', 'text rendering of numbers'],
+    trusted_base=COMMON_TRUST + ['R7: writer -> emission log; write!/write_all -> emit(token)', 'R10: writer -> typed emission protocol; argument text abstracted to the class of its Rust type; `E as i32` -> as_i32(E)',
+                                 'R6: position arithmetic / int-cast comparison / Option<PathType> inequality abstracted as uninterpreted functions',
+                                 'section_keys! macro: Display and FromStr of the key enums both come from stringify!(variant)',
+                                 'acceptance table `accepts` (contracts/kv.vc) transcribed from parse_general / parse_editor / parse_metadata / parse_difficulty'],
+    assumptions=['first control point is typed and the list is non-empty (established by the decoder: obligation ho_path_*)',
+                 'numeric fields of a decoded map are finite and within the parser limits (C11), audio_lead_in is integral (set from an i32), text fields are single-line'],
+    not_decided=['record lines of Events / TimingPoints / Colours / HitObjects other than the slider path', 'text rendering of numbers (core::fmt)', 'text values containing `//` in comment-trimming sections'],
 )
 
 NOT_APPLICABLE = {
